@@ -282,7 +282,7 @@ PROPS = {
                       "history; __check_membership(dict) checks EVERY variable (None skipped): ValueError iff wrong size / out of bounds / non-integer value of an integer "
                       "variable; filter_dimensions filters bounds AND policy (one policy entry per component afterwards); unnormalize_vect WITH integer variables (points: "
                       "affine map then numpy.round on integer components; gradients, minus_lb=False: pure scaling, no rounding) and normalize_grad / unnormalize_grad as the "
-                      "matching linear scalings with or without integer variables; transform_vect / untransform_vect = normalize_vect / unnormalize_vect for points; induction lemmas: offsets of the concatenation = index-range starts, index ranges "
+                      "matching linear scalings with or without integer variables; transform_vect / untransform_vect = normalize_vect / unnormalize_vect for points; VALUES (contracts/c02_values.py): convert_array_to_dict (the real loop of split_array_to_dict_of_arrays, inlined, under an invariant) gives one entry per variable in the variable order, the value of `name` being the block x[start(name) : start(name)+size(name)] - the inverse of convert_dict_to_array (LosslessConversionLemmas: array -> dict -> array and dict -> array -> dict give back every component); set_current_value(array): ValueError unless `dimension` components, every variable gets its block (integer part for an integer variable), status flag refreshed, cached copies dropped; set_current_value(dict of arrays): exactly the entries whose key is a variable are stored, flag = every variable has a value; get_current_value() as an array: KeyError iff the flag is off, otherwise the concatenation of the per-variable values at the index ranges (cache hit or not); induction lemmas: offsets of the concatenation = index-range starts, index ranges "
                       "within [0, dimension), every component has an owner variable, increasing => pairwise increasing.",
         "level_note": "Trusted: pyvc with its ordered-dict model, numpy model (npmodel.py + pyvc/plug_c02.py: sequences of vectors built by comprehensions, concatenate of a "
                       "sequence of vectors at the prefix sums of the lengths (plug_c14's hstack model, its two consequences re-used), nonzero triggers, Variable(...) with "
@@ -294,7 +294,7 @@ PROPS = {
                       "__update_current_metadata. Cited induction lemmas are proved as lemma contracts over uninterpreted index-range functions and instantiated at the "
                       "design space's ranges (hypotheses of each citation are proved obligations). KNOWN FINDING: unnormalize_vect casts the whole result to int64 when the "
                       "common dtype of the current values is an integer dtype although some variable is a float variable (known_findings.json). "
-                      "Not covered: filter, extend, set_current_value, get_current_value values, convert_array_to_dict / split_array_to_dict_of_arrays, conversions and bounds "
+                      "Value level: an int64 array is represented by its real image (astype(int64) = truncation), stored values are arrays (a None entry is not covered there), __update_current_metadata restated (verified structurally) and _check_current_names assumed (ValueError or nothing), OptimizationResult form not covered. Not covered: filter, extend, get_current_value for a subset / as a dict / normalised, conversions and bounds "
                       "for a SUBSET of names, get_indexed_variable_names, get_variables_indexes, check, __eq__, initialize_missing_current_values, to_scalar_variables, "
                       "`out=` arguments, batches (C14), sparse inputs, complex dtype, file I/O; preservation of the link-level "
                       "invariants (policy = policy of the variable) by the mutators other than filter_dimensions / _add_norm_policy is proved only at the structural level.",
@@ -305,9 +305,9 @@ PROPS = {
                         "proved by induction under C14 HstackLemmas); numpy.round uninterpreted with ground axioms (integer-valued)",
                         "floats are reals; +-inf bounds are tags on reals (comparisons `!= inf` exact, order comparisons with an infinite bound not faithful)",
                         "link-level restatements of set_current_variable / __update_current_metadata / get_current_value (verified or assumed at the structural level)"],
-        "not_covered": ["filter", "extend", "set_current_value", "get_current_value (values)", "convert_array_to_dict", "conversions / bounds for a subset of variable names",
+        "not_covered": ["filter", "extend", "set_current_value(OptimizationResult) / None entries", "get_current_value for a subset of names, as a dict, normalised", "conversions / bounds for a subset of variable names",
                         "get_indexed_variable_names / get_variables_indexes", "check / __eq__", "out= arguments, sparse, complex"],
-        "modules": ["contracts.c02_design_space", "contracts.c02_normalization", "contracts.c02_more"],
+        "modules": ["contracts.c02_design_space", "contracts.c02_normalization", "contracts.c02_more", "contracts.c02_values"],
     },
     "C01": {
         "level_text": "Proof, function by function and for all inputs, of the database lookup / compute / store protocol of ProblemFunction: a recorded point is "
@@ -455,14 +455,18 @@ PROPS = {
                       "outputs and a Jacobian covering the requested outputs x inputs returns that Jacobian without computing or running anything; otherwise the Jacobian is "
                       "computed exactly once (at most once when the run provides one), restricted to the differentiated outputs x inputs (all grammar names with "
                       "compute_all_jacobians), and cached under the prepared inputs as passed; execute resets _has_jacobian so that a Jacobian is flagged valid only if loaded "
-                      "with the entry or provided by that very run.",
+                      "with the entry or provided by that very run; (9) BaseDiscipline.execute / _store_cache / __create_input_data_for_cache with a FULL cache "
+                      "(contracts/c05_execute_full.py, exact matching, through the verified BaseFullCache contracts): on a hit (an entry filed under the content of the prepared "
+                      "input data has outputs) the body does not run, the returned data are the inputs merged with the converted stored outputs and nothing of the cache changes; on "
+                      "a miss the body runs exactly once and the cache then holds, under the prepared input data as they were at the call (converted to arrays), the returned outputs "
+                      "(converted, restricted to the output names), stored as copies; an entry that had outputs keeps them whatever happens.",
         "level_note": "Trusted: pyvc VC generator and its dict/list/set models, z3/cvc5, arrays as opaque contents in a symbolic heap (allocation only, no "
                       "in-place modification inside the verified functions), compare_dict_of_arrays / hash_data / flatten-nest of Jacobians assumed, "
                       "ghost code in __ensure_input_data_exists (ghost variables only), DictProxy stores pickled copies, IO/grammar/_run environment of "
                       "execute assumed; HDF5Cache: abstract h5py/scipy model of the cache file (C11 assumptions), model code maintaining the model field `_store` "
                       "(pyvc/plug_c05more.py), open/close protocol of the file handle assumed. Not covered: locking, execute with a full cache (data converters).",
         "design_ref": "DESIGN.md §4 C05",
-        "modules": ["contracts.c05_caches", "contracts.c05_full_cache", "contracts.c05_discipline", "contracts.c11_hdf5_cache_file", "contracts.c05_more"],
+        "modules": ["contracts.c05_caches", "contracts.c05_full_cache", "contracts.c05_discipline", "contracts.c11_hdf5_cache_file", "contracts.c05_more", "contracts.c05_execute_full"],
         "runtime": "contracts.rt_c05",
         "assumptions": [
             "arrays are opaque values compared by content; numpy's `!=`/norm inside compare_dict_of_arrays are not modelled: tolerance 0 = equal contents, "
@@ -487,7 +491,8 @@ PROPS = {
             "replaced by their real parts",
             "closeness with tolerance is reflexive; prepare_input_data is idempotent; _jac_approx is not None in an approximation mode",
             "data converters: convert_array_to_value(name, array) is a function of the name and of the content of the array and does not modify the array (a Python scalar/str value is an "
-            "opaque content in the array heap); a dictionary returned by a cache read may be the stored one - `d.copy()` is not",
+            "opaque content in the array heap); convert_value_to_array likewise; a dictionary returned by a cache read may be the stored one - `d.copy()` is not; execute with a full cache "
+            "looks the entry up under the content of the prepared data and files it under their CONVERTED content (equal for array-typed inputs; the relation between the two is not assumed)",
             "a multiprocessing manager DictProxy stores a pickled deep copy of an assigned value (MemoryFullCache(is_memory_shared=True))",
             "multiprocessing.Value cells and the index arrays of _hashes_to_indices are modelled as integer cells / lists of integers; lock decorators are identity",
             "BaseDiscipline.execute: SimpleCache policy, no data processor, grammar validation has no effect, prepare_input_data is a function of the data passed in, "
@@ -498,7 +503,7 @@ PROPS = {
                         "multi-process locking; two HDF5Cache objects on the same node",
                         "linearize with a full cache or without cache; _check_jacobian_shape / _init_jacobian / array shapes; perturbed executions of the Jacobian approximation; "
                         "_linearize_on_last_state subclasses; consequences of SimpleCache keeping self.jac by reference (known finding)",
-                        "BaseDiscipline.execute / _store_cache with MemoryFullCache/HDF5Cache (convert_value_to_array on the way in; __can_load_cache with a full cache IS covered, for exact matching)", "in-place modification of inputs by _run",
+                        "execute with a full cache and a tolerance > 0, with virtual_execution or a data processor; Discipline (Jacobian-storing override of _store_cache) with a full cache", "in-place modification of inputs by _run",
                         "BaseCache.input_names/output_names/names_to_sizes (cached names), update, __add__, __setitem__, to_dataset (pandas), to_ggobi; MemoryFullCache.copy",
                         "arrays returned by a lookup are shared with the cache (SimpleCache, MemoryFullCache not shared): modifying them in place changes the cached entry",
                         "compare_dict_of_arrays itself (assumed contract)"],
@@ -765,7 +770,12 @@ PROPS = {
                       "complete enumeration) and the offset b + sum_k A[:, F_k] v_k; compute_linear_approximation also for a number-valued f (one row = the gradient); "
                       "MDOFunction.__neg__: the new function evaluates with the operand's _min_pt / _min_jac (verified above) and keeps type, declared dimension and "
                       "output names. ConvexLinearApprox._jac_to_wrap wrote into the array returned by the operand's Jacobian: repaired (81c6c57), now proved for "
-                      "every mask. FunctionRestriction._func_to_wrap/_jac_to_wrap: f / Df are evaluated at the point that holds the given values on the active inputs "
+                      "every mask. Public operators (contracts/c10_operators.py): _AdditionFunctionMaker/_MultiplicationFunctionMaker.__init__ (direct and inverse; second operand a "
+                      "function with or without Jacobian, or a number) record exactly (first, second) in this order, the flags and the numpy operator assumed by the "
+                      "verified _compute_operation/_compute_operation_jacobian, and build a NEW MDOFunction whose func / jac are these closures (jac iff the operands "
+                      "have one), with dim / output names / normalisation flag of the first operand and the type as coded; MDOFunction.__add__/__sub__/__mul__/"
+                      "__truediv__ (function or number operand) and offset(number) return that function of a new maker holding (self, other). "
+                      "FunctionRestriction._func_to_wrap/_jac_to_wrap: f / Df are evaluated at the point that holds the given values on the active inputs "
                       "and the frozen values on the frozen ones; the Jacobian is the active columns of Df there.",
         "level_note": "Trusted: pyvc, the numpy model (npmodel.py + plug_np_c10.py: ufunc functions, atleast_2d, tile, axis sums, max/argmax, heaviside, matrix-vector "
                       "product, in-place `a op= b` on array names), reals for floats (the shift by the maximum in KS/IKS only matters in floating point), exp/log "
@@ -775,7 +785,7 @@ PROPS = {
                       "KS/IKS, and the formula of three KS/IKS Jacobians for a subset of components (validated at run time only).",
         "design_ref": "DESIGN.md §4 C10",
         "runtime": "contracts.rt_c10",
-        "modules": ["contracts.c10_function_algebra", "contracts.c10_approximations", "contracts.c01_preprocessing"],
+        "modules": ["contracts.c10_function_algebra", "contracts.c10_approximations", "contracts.c10_operators", "contracts.c01_preprocessing"],
         "assumptions": [
             "MDOFunction conventions (preconditions): f(x) is a vector of size m >= 1 with Jacobian of shape (m, len(x)), or a number with a gradient of shape (len(x),); both "
             "operands of a binary operation have the same output dimension (the result is built with dim = first_operand.dim); a vector operand has size m",
@@ -787,9 +797,10 @@ PROPS = {
             "numpy.atleast_2d of a vector and A[0, :] are modelled as copies (numpy returns views; no later in-place write to them in the verified code)",
             "lemma instances offered to the solver: congruence and positivity of prefix sums, proved by induction in PrefixSumLemmas",
         ],
-        "not_covered": ["_OperationFunctionMaker.__init__ and MDOFunction.__add__/__sub__/__mul__/__truediv__/__neg__/offset (construction of the result object, names/expr/special_repr)",
-                        "MDOFunction.__add__/__sub__/__mul__/__truediv__/offset (also inherited by MDOLinearFunction): the construction of the result object by "
-                        "_OperationFunctionMaker.__init__ (flags, dim, names) is not under contract - only the callables it installs are; names / expression strings of the "
+        "not_covered": ["operators with a VECTOR second operand, an operand without Jacobian or MDOLinearFunction operands at the level of the public operators "
+                        "(the makers' constructors cover function-with/without-Jacobian and number operands); input names of f <op> g (sorted union: not specified); "
+                        "names / expr / special_repr of the results (assumed string glue _compute_expr); MDOFunction.offset with a vector",
+                        "names / expression strings of the "
                         "functions built by __neg__/offset/restrict/compute_linear_approximation (assumed string glue: pretty_str, _generate_*_expr, generate_input_names); "
                         "sparse coefficient matrices outside normalize; restrict with negative or repeated frozen indexes (excluded by precondition, see report)",
                         "mdo_quadratic_function.py, compute_quadratic_approximation, FunctionRestriction.__init__ (its _func_to_wrap/_jac_to_wrap are verified relative to the "
@@ -819,9 +830,10 @@ PROPS["C11"] = {
                   "dataset listing as many names as it has outputs, pending buffer emptied - under history preconditions stated as `requires append:*`; update_from_file is "
                   "proved at the index level too (never raises on a well-formed node, rebuilds exactly N points in index order); lemmas: the record written for a new "
                   "point decodes (fhas/fval) to exactly its outputs (PointRoundTripLemmas), reader(writer(db)) has the same points in the same order and "
-                  "'incremental append == single final export' at the index level (IndexRoundTripLemmas). NOT proved: the content clauses of the reader (names = fhas, "
-                  "values = fval; designed, switched off: READER_CONTENT_CLAUSES), the append-case point lemma and hence the end-to-end VALUE round trip - covered only by "
-                  "the bounded run-time stand-in below. "
+                  "'incremental append == single final export' at the index level (IndexRoundTripLemmas). The CONTENT clauses of the reader are proved too (staged ghost assertions): the names of the i-th "
+                  "reloaded point are exactly those listed in k/<i>, every value is the decoded array / the scalar at its rank; ValueRoundTripLemmas: with per-point records "
+                  "encoding the database (pt_is, a hypothesis) reader(writer(db)) has the same points, names and values. NOT proved: the assembly of pt_is into a file-level "
+                  "invariant of to_file (index level proved; new-point case in PointRoundTripLemmas, append case not) - covered only by the bounded run-time stand-in below. "
                   "DESIGN-SPACE TEXT FILES (contracts/c11_design_space_files.py): DesignSpace.from_csv (header read from the file) is proved over an abstract text table "
                   "(what numpy.genfromtxt returns as a str and a float table of the same shape; assumed contracts T1-T4 of pyvc/plug_dsfiles.py): loop invariants "
                   "'the scanned rows of the name column form consecutive blocks, one per unique name' and 'k = start + the rows of the variables already read; "
@@ -907,7 +919,7 @@ PROPS["C11"] = {
         "to_hdf/from_hdf (root and nested node): same names in the same order, sizes, types, bounds, current values (None stays None), reloaded == original. "
         "780 scenarios, 0 failures on the pinned tree (5 s). Stands in for the unproved to_csv / HDF / to_file clauses of the design-space files.",
     ],
-    "not_covered": ["content clauses of HDFDatabase.update_from_file (names/values of each reloaded point) and the file-level per-point content invariant of to_file (index level proved; values: bounded stand-in only)",
+    "not_covered": ["file-level per-point CONTENT invariant of HDFDatabase.to_file (index level proved; per-point content = postconditions of the per-point writers; append-case point lemma missing; bounded stand-in)",
                     "Database.input_space / DesignSpace.to_hdf inside to_file (assumed to leave x, k, v untouched)",
                     "DesignSpace.to_csv / get_pretty_table (PrettyTable text layer) and hence the text round-trip lemma, from_csv with an explicit header argument, files with duplicate header fields, "
                     "DesignSpace.to_hdf/from_hdf/to_file/from_file (bounded stand-in only), OptimizationProblem.from_hdf and the description groups written by OptimizationProblem.to_hdf "
@@ -951,14 +963,18 @@ PROPS["C17"] = {
                   "Disciplinary formulation: DisciplinaryOpt.__init__ / _filter_design_space / get_top_level_disciplines (the top-level discipline is the "
                   "discipline or the chain of the disciplines; the user's design space is kept and restricted to exactly its variables that are inputs of "
                   "it, definitions kept; IndexError for no discipline), DesignSpace.filter in place (exactly the asked variables are kept; ValueError iff "
-                  "an asked name is unknown), BaseFormulation._remove_sub_scenario_dv_from_ds (no variable of a sub-scenario remains, the others are kept).",
+                  "an asked name is unknown), BaseFormulation._remove_sub_scenario_dv_from_ds (no variable of a sub-scenario remains, the others are kept); "
+                  "BaseFormulation._build_objective_from_disc: the objective becomes the FunctionFromDiscipline of (objective name, formulation) or, for a "
+                  "linear adapter, its linear approximation at zeros(dimension of the current design space), stated for the FILTERED design space in "
+                  "DisciplinaryOpt.__init__ and MDF.__init__.",
     "level_note": "Trusted: pyvc, numpy model (npmodel.py + plug_np_c17.py: builtin sum as a prefix-sum ghost function, empty/arange/copy), z3, reals for floats. "
                   "Known finding (reported, to be triaged): with normalize_constraints and a zero or infinite normalisation factor (coupling variable with equal "
                   "or infinite bounds - the default bounds) the consistency constraint is nan/inf or identically 0 although y_copy != y(x); region "
                   "`degenerate-normalization-factor` of ConsistencyConstraint._func_to_wrap (replayed natively by contracts/rt_c17.py). "
-                  "Known finding (second one): DisciplinaryOpt with a discipline declared linear and a design variable that is no input of it raises "
-                  "ValueError (objective linearised at zeros(sum of the UNFILTERED variable sizes)); region `linear-objective-and-unused-design-variable` "
-                  "of DisciplinaryOpt.__init__, replayed natively by contracts/rt_c17.py (kind dopt). "
+                  "Repaired (known_findings.json `fixed`: 5e6b38b): DisciplinaryOpt with a discipline declared linear and a design variable that is no input "
+                  "of it raised ValueError (objective linearised at zeros(sum of the UNFILTERED variable sizes)); BaseFormulation._build_objective_from_disc is "
+                  "now verified (linear approximation at zeros(dimension of the CURRENT design space)) and DisciplinaryOpt.__init__ / MDF.__init__ are proved "
+                  "without any region (native replay: contracts/rt_c17.py, kind dopt). "
                   "Not covered: 'optimising any of them reaches the same optimum' (optimiser behaviour), total derivatives through the MDA (C07/C09), BiLevel.",
     "design_ref": "DESIGN.md §4 C17",
     "runtime": "contracts.rt_c17",
@@ -991,15 +1007,16 @@ PROPS["C17"] = {
         "(pyvc/plug_c17b.py, compared with numpy on 4000 random cases) and of v[:, newaxis]; gradient variant: one output coupling of size 1",
         "c17_build (DisciplinaryOpt): MDOChain(disciplines) is an opaque discipline (uninterpreted function of the disciplines), get_all_inputs returns "
         "exactly the input names of the given disciplines, get_sub_scenarios the sub-scenarios (seen through the variable names of their design "
-        "spaces); _build_objective_from_disc is abstract but carries the precondition of its linearisation (adapter.input_dimension = sum of "
-        "formulation.variable_sizes, assumed from DisciplineAdapter.__compute_input_dimension; a new MDA declares no linear relationship)",
+        "spaces); _build_objective_from_disc: FunctionFromDiscipline(names, formulation, discipline=, top_level_disc=) is the value from_disc(names, "
+        "formulation) (which discipline computes the outputs is not part of the value), `problem.objective = f` is a ghost assignment (c17_objective), "
+        "MDOFunction.FunctionType is seen through its members OBJ / OBS / NONE",
         "formulation lemmas: physical values of the variables as an uninterpreted function (x for design variables, y*(x) = abstract mda_solution for "
         "couplings); the adapter is a function of the content of its input vector; first-order (affine) change of the coupling function along a coordinate",
     ],
     "not_covered": ["same optimum across formulations (optimiser behaviour)", "BiLevel", "sparse Jacobians",
                     "the MDA factory (MDF.__init__ sees a new MDA with an arbitrary coupling structure / input grammar), MDOChain / get_all_inputs / "
-                    "get_sub_scenarios (abstract), a None adapter input_dimension, FunctionFromDiscipline.__init__ and BaseFormulation._build_objective_from_disc "
-                    "(abstract; only the dimension precondition of the linearisation is modelled), DesignSpace.filter with copy=True",
+                    "get_sub_scenarios (abstract), a None adapter input_dimension, FunctionFromDiscipline.__init__ (which discipline computes the objective), "
+                    "the OptimizationProblem.objective setter, DesignSpace.filter with copy=True",
                     "that the MDA's outputs are the disciplines' outputs at the fixed point (abstract mda_solution in the lemmas; MDA convergence: C09)",
                     "DisciplineAdapter (__create_discipline_input_data, _convert_jacobian_to_array: data converters / slices of the grammar)",
                     "matrix-valued FunctionFromDiscipline Jacobians (unmask itself is proved for matrices)"],
